@@ -57,7 +57,16 @@ func New() (string, string) {
 }
 
 // Parse parses a valid license of any version.
-func Parse(data string) (License, error) {
+func Parse(data string) (license License, err error) {
+
+	// The license string comes from the configuration, decoding a malformed or a
+	// truncated one must result in an error rather than a panic.
+	defer func() {
+		if r := recover(); r != nil {
+			license, err = nil, fmt.Errorf("license: the license provided is not valid (%v)", r)
+		}
+	}()
+
 	if len(data) < 5 {
 		return nil, fmt.Errorf("No license was found, please provide a valid license key through the configuration file, an EMITTER_LICENSE environment variable or a valid vault key 'secrets/emitter/license'")
 	}
